@@ -100,6 +100,9 @@ def decode(
     except (TypeError, ValueError):
         raise InvalidPayloadError()
 
+    if not isinstance(claims, dict):
+        raise InvalidPayloadError()
+
     return Token(header, claims)
 
 
